@@ -97,6 +97,13 @@ CLAIMED = {
             "range, with a graph path precedent -> reader; the ancestors of the formula must contain every cell read. Values and the INDEX/CHOOSE/IF selectors are symbolic, so all value-dependent read paths are covered.",
             "Bounds: 16 formula cells of one two-sheet template plus 5 set_value-then-evaluate variants; ints |v|<=99, selectors 0..3; OFFSET/INDIRECT excluded by the statement.",
             "DESIGN.md 4/C04"),
+    "C13": ("model_checking",
+            "CrossHair symbolic execution of array_fixup / cse_array_wrapper / fit_to_range and of really compiled CSE templates over enumerated shapes with symbolic elements",
+            "Operator lifting (scalar/row/column/matrix broadcasting), function lifting, the complete result-shape x target-shape case analysis of fit_to_range and five end-to-end array-formula "
+            "workbooks (member cells and the range, either evaluated first) are asserted position by position against the scalar application for all element values.",
+            "Bounds: shapes up to 2x3/3x3 (quick) and 4x4 (thorough, fit_to_range), elements {number, logical, blank, text, error}, ints |v|<=9; numpy never coerces CrossHair proxies, so array-wide "
+            "dtype coercion is probed with concrete mixed-type arrays against a symbolic scalar.",
+            "DESIGN.md 4/C13"),
 }
 
 NOT_YET = "check not built yet in this round (machinery under construction); see DESIGN.md section 4"
